@@ -116,6 +116,31 @@ Theorem disrupting_counts_all_deleting_refuted :
 Proof. exact disrupting_counts_all_deleting_refuted_l. Qed.
 Print Assumptions disrupting_counts_all_deleting_refuted.
 
+(* Validation re-checks: every validator rebuilds the budget mapping for the reason it was
+   constructed with, and that reason is the method's own (Emptiness: Empty; single/multi-node
+   consolidation: Underutilized). *)
+Theorem validator_checks_own_reason : forall m : method, validator_reason m = method_reason m.
+Proof. exact validator_reason_own. Qed.
+Print Assumptions validator_checks_own_reason.
+
+(* whatever reason r a validator carries, what it lets through fits the mapping for r ... *)
+Theorem validate_under_reason_partial : forall (sid : Type) (next : sid -> Z -> option Z)
+  (r : reason) (s : sys sid) (m : method) (prop cur : list cand) (p : Z),
+  validating m = true ->
+  count_pool p (validate_under sid next r s m prop cur) <= mapping_of sid next s r p.
+Proof. exact validate_under_le. Qed.
+Print Assumptions validate_under_reason_partial.
+
+(* ... so a validator carrying ANOTHER method's reason breaks the property: budgets
+   [{reasons [Empty], nodes 1}; {reasons [Underutilized], nodes 3}], two empty candidates proposed
+   (the Empty budget was 2 when they were chosen): an Emptiness validator built with Underutilized
+   passes both, 2 > 1. *)
+Theorem validate_foreign_reason_refuted :
+  let sel := validate_under unit (fun _ _ => None) Underutilized fr_sys MEmptiness fr_cands fr_cands in
+  map c_node sel = [1; 2] /\ ~ round_holds unit (fun _ _ => False) fr_sys Empty sel.
+Proof. exact foreign_reason_refuted_l. Qed.
+Print Assumptions validate_foreign_reason_refuted.
+
 (* One disrupt(method) call, for every state, method, candidate list, simulation outcome (choice),
    events during the validation delay(s) and candidate lists seen by the validator: per pool,
    nothing is selected or selected + disrupting <= every applicable active budget, evaluated in the
